@@ -2,6 +2,7 @@ SPECIFICATION Spec
 CONSTANTS
   BaseWorld <- SysBase
   VarChoices <- SysVarChoices
+  PointLists <- SysPointLists
   MaxObjs = 3
   MaxMasks = 1
   MaxConvs = 1
